@@ -87,6 +87,31 @@ CLAIMED = {
              "The library's real error is 100-1000x below E, so only gross precision loss violates the E clause; the sharp parts are "
              "exactness below E=1/2, results above 2^50, row structure, both dispatches.",
         technique="TLA+ API machine simulated by TLC with replay + TLC trace validation of recorded products on bignum arithmetic"),
+    "C13": dict(
+        category="model_checking",
+        text="Every code-shaped machine carries the aliasing dimension and is checked exhaustively by TLC against its definition "
+             "evaluated on the pre-state: LimbLoops (res=a, res=b, a=b, all three; sizes 0..3 incl. res_size different from the "
+             "aliased size), Normalize (res=a), RingMaps (in-place cycle walks), Pointwise (r=a, r=b with block-wise load/store). "
+             "Each aliased case is replayed on the real code and again with the aliasing removed on identical operand values "
+             "(both must equal the model, hence each other); programs of the API machine with in-place inverse DFT and aliased "
+             "coefficient/big operations are replayed lifted; 26 pointwise kernels (reim/cplx/reim4; ref, FMA, SSE, AVX-512, "
+             "dispatch, simple) with r=a / r=b on random integer-valued data are recorded and validated by TLC.",
+        design_ref="DESIGN.md section 4 C13",
+        note="Trusted: TLC. Partial overlaps are outside the property's domain and are not generated. Integer-valued data make "
+             "the floating-point kernels exact.",
+        technique="TLA+ models with an aliasing parameter checked exhaustively with TLC + twin replay (aliased / de-aliased) + TLC trace validation"),
+    "C18": dict(
+        category="model_checking",
+        text="Frame conditions are invariants of the specification, checked by TLC at every step of the code-shaped machines "
+             "(LimbLoops.Frame, Normalize.SourceKept, Pointwise.SourcesKept) and on every action of the simulated API machine "
+             "(Spqlios.SourcesUnchanged). Generated programs (both module types, both dispatches), limb-loop cases (incl. a=b), VMP "
+             "shapes and pointwise cases are replayed with byte snapshots of every object (stride padding included) and of the "
+             "module/table heap blocks around each call; the per-call change report (object, role, changed) is validated by TLC "
+             "against the write sets of Extents.tla (only the output, plus the documented scratch source of vec_znx_idft_tmp_a).",
+        design_ref="DESIGN.md section 4 C18",
+        note="Trusted: TLC; table memory = heap blocks reachable from MODULE through the private headers (usable size). A temporary "
+             "modification restored before return is invisible here (only C12's concurrent runs would see it).",
+        technique="TLA+ frame invariants checked with TLC + replay with whole-memory snapshots + TLC trace validation of change reports"),
 }
 
 NOT_YET = "check not built yet in this session (planned, see DESIGN.md section 8)"
